@@ -23,6 +23,21 @@
 
 /// compositional numeric library
 namespace cnl {
+    namespace _impl {
+        // floor(rep / Radix^Digits): the rep of a number re-expressed with Digits fewer digits, rounded down
+        template<int Digits, int Radix, typename Rep>
+        [[nodiscard]] constexpr auto scale_down_floor(Rep const& rep)
+        {
+            if constexpr (Radix == 2) {
+                return rep >> Digits;
+            } else {
+                auto const divisor{power_value<Rep, Digits, Radix>()};
+                auto const quotient{rep / divisor};
+                return ((rep % divisor) < 0) ? quotient - 1 : quotient;
+            }
+        }
+    }
+
     ////////////////////////////////////////////////////////
     /// cnl::nearest_rounding_tag
 
@@ -87,9 +102,26 @@ namespace cnl {
     private:
         using result = scaled_integer<ResultRep, power<ResultExponent, ResultRadix>>;
 
+        // For a radix other than 2, Radix^(Exponent-1) is not half a unit and the re-scaled result is
+        // not exact in floating point; there, the remainder is taken in units of the result,
+        // from the same product that the truncating conversion forms.
         [[nodiscard]] static constexpr auto half()
         {
-            return _impl::power_value<Input, ResultExponent - 1, ResultRadix>();
+            if constexpr (ResultRadix == 2) {
+                return _impl::power_value<Input, ResultExponent - 1, ResultRadix>();
+            } else {
+                return static_cast<Input>(.5);
+            }
+        }
+
+        [[nodiscard]] static constexpr auto discarded(Input const& from, result const& truncated)
+        {
+            if constexpr (ResultRadix == 2) {
+                return from - static_cast<Input>(truncated);
+            } else {
+                return from * _impl::power_value<Input, -ResultExponent, ResultRadix>()
+                     - static_cast<Input>(_impl::to_rep(truncated));
+            }
         }
 
     public:
@@ -98,7 +130,7 @@ namespace cnl {
             // truncate toward zero, then round on the exact remainder (adding half() to `from` is
             // inexact in floating point and overflows near the limits)
             auto const truncated{static_cast<result>(from)};
-            auto const remainder{from - static_cast<Input>(truncated)};
+            auto const remainder{discarded(from, truncated)};
             return (remainder >= half())
                          ? _impl::from_rep<result>(static_cast<ResultRep>(_impl::to_rep(truncated) + 1))
                  : (remainder <= -half())
@@ -194,7 +226,7 @@ namespace cnl {
         {
             // TODO: unsigned specialization
             return _impl::from_rep<result>(
-                    _impl::to_rep(from + half()) >> (ResultExponent - InputExponent));
+                    _impl::scale_down_floor<ResultExponent - InputExponent, Radix>(_impl::to_rep(from + half())));
         }
     };
     /// \endcond
@@ -210,9 +242,26 @@ namespace cnl {
     private:
         using result = scaled_integer<ResultRep, power<ResultExponent, ResultRadix>>;
 
+        // For a radix other than 2, Radix^(Exponent-1) is not half a unit and the re-scaled result is
+        // not exact in floating point; there, the remainder is taken in units of the result,
+        // from the same product that the truncating conversion forms.
         [[nodiscard]] static constexpr auto half()
         {
-            return _impl::power_value<Input, ResultExponent - 1, ResultRadix>();
+            if constexpr (ResultRadix == 2) {
+                return _impl::power_value<Input, ResultExponent - 1, ResultRadix>();
+            } else {
+                return static_cast<Input>(.5);
+            }
+        }
+
+        [[nodiscard]] static constexpr auto discarded(Input const& from, result const& truncated)
+        {
+            if constexpr (ResultRadix == 2) {
+                return from - static_cast<Input>(truncated);
+            } else {
+                return from * _impl::power_value<Input, -ResultExponent, ResultRadix>()
+                     - static_cast<Input>(_impl::to_rep(truncated));
+            }
         }
 
     public:
@@ -221,7 +270,7 @@ namespace cnl {
             // truncate toward zero, then round on the exact remainder (adding half() to `from` is
             // inexact in floating point): >= 1/2 rounds up, < -1/2 rounds down
             auto const truncated{static_cast<result>(from)};
-            auto const remainder{from - static_cast<Input>(truncated)};
+            auto const remainder{discarded(from, truncated)};
             return (remainder >= half())
                          ? _impl::from_rep<result>(static_cast<ResultRep>(_impl::to_rep(truncated) + 1))
                  : (remainder < -half())
@@ -296,7 +345,7 @@ namespace cnl {
         {
             // TODO: unsigned specialization
             return _impl::from_rep<result>(
-                    _impl::to_rep(from) >> (ResultExponent - InputExponent));
+                    _impl::scale_down_floor<ResultExponent - InputExponent, Radix>(_impl::to_rep(from)));
         }
     };
     /// \endcond
